@@ -73,6 +73,8 @@ THEOREMS = [
     "CrCube.C05.sqrtKey_nan_iff",
     "CrCube.C05.slice_colindex_is_C16",
     "CrCube.C05.slice_colindex_respondents",
+    "CrCube.C05.slice_variance_respondents",
+    "CrCube.C05.slice_zscore_respondents",
     "CrCube.C05.slice_numeric_are_C04_C15",
     "CrCube.C05.popDir_eq_popMode",
     "CrCube.C05.slice_population_is_C17",
@@ -86,27 +88,39 @@ THEOREMS = [
 ]
 RULE = ("pipeline: 1-D / 2-D / 3-D designs over cat / cat_date / text / binned / datetime / mr (derived items, missing "
         "items, missing categories anywhere) and single CA variables x random surveys (weighted or not, zero-weight "
-        "rows, 0..45 respondents) x c05.gen_dim transforms on both dimensions (insertions incl. differences / junk / "
+        "rows, 0..50 respondents) x numeric measures (mean / sum / stddev / median with unavailable cells) on ~half x "
+        "population 0 / 250 / 1000 x c05.gen_dim transforms on both dimensions (insertions incl. differences / junk / "
         "id-less / colliding ids / stale anchors / fills, view-level insertions and empty transform lists overriding "
         "them, hide flags, prune, explicit / payload / label / marginal / opposing-element / opposing-insertion / "
-        "univariate orders with direction and fixed lists with repeats and stale ids) restricted to the sort keys the "
-        "pipeline computes (counts, the six bases, three proportions; unweighted_base / weighted_base marginals; "
-        "unknown keywords kept for the fallback path), plus three focused families (sort-by-value with >= 2 "
-        "insertions per dimension, MR / categorical strands sorted by a measure, pruning over MR pairings with 0-6 "
-        "respondents); EVERY listed public output of the real partition vs the Lean pipeline op, cell for cell; base "
-        "cells and visibility also vs respondent-level counts at the positions the library's own orders name; "
-        "non-trivial = display order differs from the stripped order; distinct = (kinds, transforms, orders)")
+        "univariate orders with direction and fixed lists with repeats and stale ids) over EVERY keyword of the three "
+        "sort-key tables (33 matrix measures, 7 row marginals, 13 stripe measures, + unknown keywords for the fallback "
+        "path); a KEYWORD SWEEP (one rich data set, one case per keyword) and three focused families (sort-by-value "
+        "with >= 2 insertions per dimension, strands sorted by a measure, pruning over MR pairings with 0-9 "
+        "respondents); EVERY listed public output of the real partition - counts, bases, proportions, variances, "
+        "std-dev / std-err / MoE, z-scores, p-values, column index, population proportions / counts / std-err / MoE, "
+        "sums / means / stddev / medians, shares of sum, scale mean / median / stddev / stderr, margins, 1-D margin "
+        "proportions, orders, shape, index lists, labels / codes / aliases / fills - vs the Lean pipeline op, cell for "
+        "cell (symbolic sqrt / normal-tail terms evaluated with numpy / scipy); base cells and visibility also vs "
+        "respondent-level counts at the positions the library's own orders name; non-trivial = display order differs "
+        "from the stripped order; distinct = (kinds, transforms, orders)")
 ASSUMPTIONS = [
     "adapter: element keys are spelled as the library addresses them (category ids, subvariable aliases, datetime "
     "values); ids in fixed / explicit lists that no element carries are passed as spelled (they match nothing on "
     "either side); element labels are computed by the adapter and compared with the library's whenever a label sort "
-    "reads them",
-    "excluded from the pipeline grammar: sort keys z_score, p_value, col_index, std-err / std-dev / MoE, population, "
-    "share-of-sum, mean / sum / stddev, scale marginals, table_proportion marginal (their measures are not part of "
-    "the pipeline model); opposing-insertion sort on an ARRAY opposing dimension only with ids its translation "
-    "cascade rejects (fallback path); opposing-element references to an MR dimension are aliases or an unmatched id "
-    "(the translation cascade is C19's subject); CubeSets, numeric measures, smoothing, pairwise index sets (C05 main)",
+    "reads them; population fraction is 1 (no filter statistics in the generated responses: C17's subject)",
+    "orders: the model sorts exact rational surrogates (radicand of a sqrt, sign * n^2/d of n/sqrt(d), -z^2 of a normal "
+    "tail), the library floats: when the two orders differ ONLY by a permutation of vectors whose inexact sort keys are "
+    "equal within 1e-9 (never for counts / bases / payload values, never for NaN keys) the model outputs are "
+    "re-indexed to the library's order before the cell-by-cell comparison (counted as pipe.near_tie_reordered)",
+    "excluded: opposing-insertion sort on an ARRAY opposing dimension only with ids its translation cascade rejects "
+    "(fallback path); opposing-element references to an MR dimension are aliases or an unmatched id (the translation "
+    "cascade is C19's subject); column_index and col_index sort keys on designs whose array dimension carries an "
+    "item flagged missing (input not evidenced - the library states an MR_SUBVAR element is never missing; counted "
+    "as excluded:column_index.missing-array-item); valid-count measures (diff_nans); the 2-D margin-proportion "
+    "fallback (F13) and the scale *_margin scalars (F21); CubeSets, smoothing, pairwise index sets (C05 main)",
 ]
+TRUSTED_EXTRA = ["Python evaluation of Scale.SOut terms (np.sqrt, np.sqrt(a)/np.sqrt(b))",
+                 "monotonicity of sqrt and of the normal tail, by which the exact surrogates order like the float values"]
 
 MEASURE_OK = ["col_base_unweighted", "col_base_weighted", "col_percent", "row_base_unweighted", "row_base_weighted",
               "row_percent", "table_percent", "table_base_unweighted", "table_base_weighted", "count_unweighted",
@@ -227,17 +241,57 @@ def _at_least_two_insertions(rng, v):
     return ins
 
 
+BASE_MEASURES = MEASURE_OK[:13]
+DERIVED_MEASURES = ["col_index", "col_percent_moe", "col_std_dev", "col_std_err", "p_value", "row_percent_moe", "row_std_dev",
+                    "row_std_err", "table_percent_moe", "table_std_dev", "table_std_err", "z_score"]
+NUMERIC_MEASURES = {"mean": ["mean"], "stddev": ["stddev"], "sum": ["sum", "col_share_sum", "row_share_sum", "total_share_sum"]}
+
+
+def _pick_measure(rng, cat_date, measures):
+    """sort key of a matrix order: weighted towards the composed measures; population keys where a dimension is
+    categorical-date (only there do they differ from the table percent); numeric keys where the cube carries them"""
+    r = rng.random()
+    if cat_date and r < 0.3:
+        return rng.choice(["population", "population_moe"])
+    avail = [k for m in (measures or {}) for k in NUMERIC_MEASURES.get(m, [])]
+    if avail and r < 0.5:
+        return rng.choice(avail)
+    if r < 0.58:
+        return rng.choice(BASE_MEASURES)
+    if r < 0.63:
+        return rng.choice(["population", "population_moe", "mean", "sum", "stddev", "col_share_sum"])
+    return rng.choice(DERIVED_MEASURES)
+
+
+def _gen_measures(rng, vars_, p=0.45, names=None):
+    if rng.random() >= p:
+        return None
+    tot = 1
+    for x in gen.raw_shape(vars_):
+        tot *= x
+    ms = {}
+    for name in (names or rng.sample(["mean", "sum", "stddev", "median"], rng.randint(1, 3))):
+        ms[name] = [gen.frac_str(Fraction(rng.randint(0, 40), rng.choice([1, 2, 4]))) if rng.random() < 0.9 else None
+                    for _ in range(tot)]
+    return ms
+
+
 def gen_sort_case(rng):
     """sort-by-value focus: enough respondents and elements for the sort keys to differ, at least two insertions on
     the categorical dimensions (so that the order WITHIN the subtotal group, the inserted column a sort reads and the
     NaN-last rule are observable), weighted surveys (weighted vs unweighted keys order differently)"""
     kinds = rng.choice([["cat", "cat"], ["cat", "cat"], ["cat", "cat"], ["cat_date", "cat"], ["cat", "cat_date"],
-                        ["cat", "mr"], ["mr", "cat"], ["cat", "cat", "cat"], ["mr", "cat", "cat"]])
+                        ["cat_date", "cat_date"], ["cat", "mr"], ["mr", "cat"], ["cat", "cat", "cat"],
+                        ["mr", "cat", "cat"]])
     vars_ = [gen.gen_var(rng, k, "v%d" % i, n=rng.randint(3, 5), missing_items=True) for i, k in enumerate(kinds)]
     weighted = rng.random() < 0.8
     survey = gen.gen_survey(rng, vars_, n_resp=rng.randint(15, 45), weighted=weighted, skew=rng.random() < 0.3)
     case = {"vars": [v.to_json() for v in vars_], "survey": gen.survey_to_json(survey), "weighted": weighted, "min_base": 0}
+    ms = _gen_measures(rng, vars_, p=0.5, names=rng.choice([["mean", "sum"], ["sum"], ["mean", "stddev"], ["sum", "stddev", "mean"]]))
+    if ms:
+        case["measures"] = ms
     R, C = vars_[-2], vars_[-1]
+    cat_date = "cat_date" in kinds[-2:]
     rd, cd = {}, {}
     ri, ci = _at_least_two_insertions(rng, R), _at_least_two_insertions(rng, C)
     if ri:
@@ -246,23 +300,28 @@ def gen_sort_case(rng):
         cd["insertions"] = _with_fills(rng, ci)
     rkeys, ckeys = sc.element_keys(R), sc.element_keys(C)
     rt = rng.choice(["opposing_element", "opposing_element", "opposing_element", "opposing_insertion",
-                     "opposing_insertion", "opposing_insertion", "marginal", "label"])
+                     "opposing_insertion", "opposing_insertion", "marginal", "marginal", "label"])
     if rt == "opposing_element":
-        ro = {"type": rt, "element_id": rng.choice(ckeys), "measure": rng.choice(MEASURE_OK)}
+        ro = {"type": rt, "element_id": rng.choice(ckeys), "measure": _pick_measure(rng, cat_date, ms)}
     elif rt == "opposing_insertion":
         ro = {"type": rt, "insertion_id": rng.choice(_ins_ids(cd) + [77]) if not C.is_array else 77,
-              "measure": rng.choice(MEASURE_OK)}
+              "measure": _pick_measure(rng, cat_date, ms)}
     elif rt == "marginal":
-        ro = {"type": rt, "marginal": rng.choice(MARGINAL_OK)}
+        ro = {"type": rt, "marginal": rng.choice(MARGINAL_OK + ["scale_mean", "scale_mean_stddev", "scale_mean_stderr",
+                                                               "scale_median", "table_proportion"])}
+        for cc in C.cats:                      # a scale needs numeric values on the opposing dimension
+            if cc.get("numeric_value") is None and rng.random() < 0.7:
+                cc["numeric_value"] = rng.choice([-2, -1, 0, 1, 2, 3, 5, 10])
+        case["vars"] = [v.to_json() for v in vars_]
     else:
         ro = {"type": "label"}
     rd["order"] = _sort_opts(rng, ro, rkeys)
     ct = rng.choice(["opposing_element", "opposing_insertion", "label", "explicit", "none"])
     if ct == "opposing_element":
-        cd["order"] = _sort_opts(rng, {"type": ct, "element_id": rng.choice(rkeys), "measure": rng.choice(MEASURE_OK)}, ckeys)
+        cd["order"] = _sort_opts(rng, {"type": ct, "element_id": rng.choice(rkeys), "measure": _pick_measure(rng, cat_date, ms)}, ckeys)
     elif ct == "opposing_insertion":
         cd["order"] = _sort_opts(rng, {"type": ct, "insertion_id": rng.choice(_ins_ids(rd) + [78]),
-                                       "measure": rng.choice(MEASURE_OK)}, ckeys)
+                                       "measure": _pick_measure(rng, cat_date, ms)}, ckeys)
     elif ct == "label":
         cd["order"] = _sort_opts(rng, {"type": "label"}, ckeys)
     elif ct == "explicit":
@@ -290,6 +349,9 @@ def gen_strand_sort_case(rng):
         tgt = rng.randrange(len(v.cats))      # weighted-empty, unweighted non-empty (first item, for MR)
         survey = [(Fraction(0) if ans[0][0] == tgt else w, ans) for w, ans in survey]
     case = {"vars": [v.to_json()], "survey": gen.survey_to_json(survey), "weighted": weighted, "min_base": 0}
+    ms = _gen_measures(rng, [v], p=0.5, names=rng.choice([["mean", "sum"], ["sum"], ["mean"]]))
+    if ms:
+        case["measures"] = ms
     d = {}
     ins = _at_least_two_insertions(rng, v)
     if ins:
@@ -298,7 +360,15 @@ def gen_strand_sort_case(rng):
     t = rng.choice(["univariate_measure", "univariate_measure", "univariate_measure", "label"])
     o = {"type": t}
     if t == "univariate_measure":
-        o["measure"] = rng.choice(STRIPE_OK)
+        r = rng.random()
+        if kind == "cat_date" and r < 0.4:
+            o["measure"] = rng.choice(["population", "population_moe"])
+        elif ms and r < 0.6:
+            o["measure"] = rng.choice([k for k, need in (("mean", "mean"), ("sum", "sum"), ("share_sum", "sum")) if need in ms])
+        elif r < 0.8:
+            o["measure"] = rng.choice(["percent_moe", "percent_stddev", "percent_stderr", "percent_moe"])
+        else:
+            o["measure"] = rng.choice(STRIPE_OK)
     d["order"] = _sort_opts(rng, o, keys)
     el = {str(k): {"hide": True} for k in keys if rng.random() < 0.12}
     if el:
@@ -401,15 +471,10 @@ def gen_case(rng):
     case = _gen_case0(rng)
     vars_, survey = sc.load(case)
     # numeric measures on some cases (a sort by mean / sum / stddev / share-of-sum falls back without them)
-    if rng.random() < 0.45:
-        tot = 1
-        for x in gen.raw_shape(vars_):
-            tot *= x
-        ms = {}
-        for name in rng.sample(["mean", "sum", "stddev", "median"], rng.randint(1, 3)):
-            ms[name] = [gen.frac_str(Fraction(rng.randint(0, 40), rng.choice([1, 2, 4]))) if rng.random() < 0.9 else None
-                        for _ in range(tot)]
-        case["measures"] = ms
+    if "measures" not in case:
+        ms = _gen_measures(rng, vars_)
+        if ms:
+            case["measures"] = ms
     case["population"] = rng.choice([0, 1000, 1000, 250])
     # the column index is not evidenced for an array dimension with an item flagged missing (the library states an
     # MR_SUBVAR element is never missing): no col_index sort key there, and column_index is not compared
@@ -438,8 +503,61 @@ def _fix_opp_ins(rng, rd, cd, rows_array, cols_array):
         rd["order"]["insertion_id"] = 77 if cols_array else rng.choice(_ins_ids(cd) + [1, 77])
 
 
+def gen_sweep(rng):
+    """KEYWORD SWEEP: one rich data set, one case per sort keyword of the helpers' tables (33 matrix measures on the
+    rows order by an opposing element and on the columns order by an opposing insertion, the 7 row marginals, the 13
+    stripe measures on an MR strand, the population keys on a categorical-date strand): a wrong entry of a keyword
+    table shows as soon as the two measures order this data set differently"""
+    out = []
+    kinds = rng.choice([["cat", "cat"], ["cat_date", "cat"], ["cat", "cat_date"]])
+    vars_ = [gen.gen_var(rng, k, "v%d" % i, n=rng.randint(4, 5), allow_missing=(i == 0), numeric="all")
+             for i, k in enumerate(kinds)]
+    survey = gen.gen_survey(rng, vars_, n_resp=rng.randint(35, 50), weighted=True, skew=False)
+    base = {"vars": [v.to_json() for v in vars_], "survey": gen.survey_to_json(survey), "weighted": True, "min_base": 0,
+            "measures": _gen_measures(rng, vars_, p=1.1, names=["mean", "sum", "stddev"]), "population": 1000}
+    R, C = vars_
+    ri, ci = _at_least_two_insertions(rng, R), _at_least_two_insertions(rng, C)
+    rkeys, ckeys = sc.element_keys(R), sc.element_keys(C)
+    col_el = rng.choice(ckeys[1:] or ckeys)
+    row_ins = rng.choice(_ins_ids({"insertions": ri}) or [78])
+    for kw in MEASURE_OK:
+        rd = {"insertions": copy.deepcopy(ri), "order": {"type": "opposing_element", "element_id": col_el, "measure": kw,
+                                                        "direction": rng.choice(["ascending", "descending"])}}
+        cd = {"insertions": copy.deepcopy(ci), "order": {"type": "opposing_insertion", "insertion_id": row_ins, "measure": kw}}
+        out.append(dict(copy.deepcopy(base), transforms={"rows_dimension": rd, "columns_dimension": cd}))
+    for kw in MARGINAL_OK:
+        rd = {"insertions": copy.deepcopy(ri), "order": {"type": "marginal", "marginal": kw}}
+        out.append(dict(copy.deepcopy(base), transforms={"rows_dimension": rd, "columns_dimension": {"insertions": copy.deepcopy(ci)}}))
+    # a second data set for the marginals (five rows: two marginals rarely order five rows and two subtotals alike)
+    vars2 = [gen.gen_var(rng, "cat", "v%d" % i, n=5, allow_missing=False, numeric="all") for i in range(2)]
+    survey2 = gen.gen_survey(rng, vars2, n_resp=rng.randint(35, 50), weighted=True, skew=False)
+    base2 = {"vars": [v.to_json() for v in vars2], "survey": gen.survey_to_json(survey2), "weighted": True, "min_base": 0,
+             "population": 1000}
+    ri2 = _at_least_two_insertions(rng, vars2[0])
+    for kw in MARGINAL_OK:
+        rd = {"insertions": copy.deepcopy(ri2), "order": {"type": "marginal", "marginal": kw,
+                                                         "direction": rng.choice(["ascending", "descending"])}}
+        out.append(dict(copy.deepcopy(base2), transforms={"rows_dimension": rd}))
+    for kind, kws in (("mr", STRIPE_OK), ("cat_date", ["population", "population_moe", "percent", "percent_moe"])):
+        v = gen.gen_var(rng, kind, "v0", n=5, missing_items=False)
+        sv = gen.gen_survey(rng, [v], n_resp=rng.randint(30, 45), weighted=True, skew=False)
+        sb = {"vars": [v.to_json()], "survey": gen.survey_to_json(sv), "weighted": True, "min_base": 0,
+              "measures": _gen_measures(rng, [v], p=1.1, names=["mean", "sum"]), "population": 1000}
+        ins = _at_least_two_insertions(rng, v)
+        for kw in kws:
+            d = {"order": {"type": "univariate_measure", "measure": kw, "direction": rng.choice(["ascending", "descending"])}}
+            if ins:
+                d["insertions"] = copy.deepcopy(ins)
+            out.append(dict(copy.deepcopy(sb), transforms={"rows_dimension": d}))
+    return out
+
+
 def generate(ctx):
-    return [gen_case(ctx.rng) for _ in range(ctx.n(240, 3000))]
+    cases = gen_sweep(ctx.rng)
+    if not ctx.quick:
+        for _ in range(9):
+            cases.extend(gen_sweep(ctx.rng))
+    return cases + [gen_case(ctx.rng) for _ in range(ctx.n(200, 3000))]
 
 
 # ---------------------------------------------------------------------------------------------
@@ -610,7 +728,7 @@ def lean_ops(case):
     tr = case["transforms"]
     dims = _dims_of(vars_)
     # the executable twins of the re-indexing theorems on every 12th case or so (a pure function of the case)
-    twins = len(case["survey"]) % 12 == 5
+    twins = (len(case["survey"]) + len(repr(tr))) % 12 == 5
     if len(dims) == 1:
         (v, role), = dims
         return [dict({"op": "pipe_strand", "vars": lv, "wdata": wdata, "udata": udata, "survey": ls, "twins": twins,
@@ -656,17 +774,29 @@ def _near(a, b):
     return abs(a - b) <= 1e-9 * max(1.0, abs(a), abs(b))
 
 
-def _tie_perm(lib_order, lean_order, keys):
-    """orders computed from exact rationals and from floats may break (near-)ties differently: if the two orders list the
-    same vectors and at every position the two vectors have (near-)equal sort keys, return the map
-    lib position -> lean position, else None"""
-    if keys is None or sorted(lib_order) != sorted(lean_order):
+EXACT_KEYS = {"col_base_unweighted", "col_base_weighted", "row_base_unweighted", "row_base_weighted",
+              "table_base_unweighted", "table_base_weighted", "count_unweighted", "valid_count_unweighted",
+              "count_weighted", "valid_count_weighted", "mean", "sum", "stddev", "unweighted_base", "weighted_base",
+              "base_unweighted", "base_weighted"}
+
+
+def _tie_perm(lib_order, lean_order, keys, order_dict):
+    """orders computed from exact rationals and from floats may break (near-)ties differently — but only for sort keys
+    that involve a division or a square root (dyadic counts, bases and payload values are exact in binary64, and NaN
+    keys keep payload order on both sides).  If the two orders list the same vectors and at every position where they
+    differ the two vectors have finite, (near-)equal, inexact sort keys, return the map lib position -> lean position,
+    else None"""
+    import math
+    kw = (order_dict or {}).get("measure", (order_dict or {}).get("marginal"))
+    if keys is None or kw in EXACT_KEYS or sorted(lib_order) != sorted(lean_order):
         return None
     n = len(keys)
     kf = common.model_to_float(keys)
     for a, b in zip(lib_order, lean_order):
+        if a == b:
+            continue
         ka, kb = kf[a if a >= 0 else n + a], kf[b if b >= 0 else n + b]
-        if a != b and not _near(ka, kb):
+        if math.isnan(ka) or math.isnan(kb) or not _near(ka, kb):
             return None
     return [lean_order.index(x) for x in lib_order]
 
@@ -814,9 +944,9 @@ def evaluate(case, louts, ctx):
         # the model sorts exact rationals, the library floats: (near-)ties may be broken differently
         rp = cp = None
         if ro != t["row_order"]:
-            rp = _tie_perm(ro, t["row_order"], lo.get("row_sort_keys"))
+            rp = _tie_perm(ro, t["row_order"], lo.get("row_sort_keys"), rd.get("order"))
         if co != t["column_order"]:
-            cp = _tie_perm(co, t["column_order"], lo.get("column_sort_keys"))
+            cp = _tie_perm(co, t["column_order"], lo.get("column_sort_keys"), cd.get("order"))
         if rp is not None or cp is not None:
             ctx.count("pipe.near_tie_reordered")
             t = _remap(t, rp, cp, len(t["row_order"]), len(t["column_order"]))
@@ -952,13 +1082,13 @@ def _eval_strand(case, cube, dim, op, lo, ctx, kinds, tr):
         return findings, None
     det = "row_order=%r" % (ro,)
     if ro != t["row_order"]:
-        rp = _tie_perm(ro, t["row_order"], lo.get("row_sort_keys"))
+        rp = _tie_perm(ro, t["row_order"], lo.get("row_sort_keys"), rd.get("order"))
         if rp is not None:
             ctx.count("pipe.near_tie_reordered")
             n = len(ro)
-            t = {k2: ([v2[i] for i in rp] if (isinstance(v2, list) and len(v2) == n and not k2.endswith("_idxs")
-                                              and k2 != "shape")
-                      else ([p2 for p2 in range(n) if rp[p2] in v2] if k2.endswith("_row_idxs") else v2))
+            pos_keys = ("inserted_row_idxs", "diff_row_idxs", "derived_row_idxs")
+            t = {k2: ([p2 for p2 in range(n) if rp[p2] in v2] if k2 in pos_keys
+                      else ([v2[i] for i in rp] if (isinstance(v2, list) and len(v2) == n and k2 != "shape") else v2))
                  for k2, v2 in t.items()}
     ok = _cmp(findings, "model", "pipeline.strand.row_order", ro, t["row_order"], det)
     if len(set(ro)) != len(ro):
